@@ -83,19 +83,29 @@ Print Assumptions key_roundtrip_dot_refuted.
 
 (* ---------------- client data store ---------------- *)
 
-(* Full statement: for EVERY trace of a process (serialisations, resolutions, in-place mutations of
-   live objects), the text serialize returned for v - inline or reference - resolves to v. *)
+(* Full statement: for EVERY trace (serialisations, resolutions here and on other instances, in-place
+   mutations of live objects, purges by this or another instance BEFORE; anything but a purge AFTER),
+   the text serialize returned for v - inline or reference - resolves to v, on this instance and on
+   every other instance over the same backend (the worker side). *)
 Definition cds_roundtrip_full : Prop :=
   forall (V : Type) (ser : V -> str) (deser : str -> V) (as_ref : V -> option str) (H : str -> str)
          (c : cds_conf) (T : str -> Prop),
   (forall s1 s2, T s1 -> T s2 -> H s1 = H s2 -> s1 = s2) -> (forall v, deser (ser v) = v) ->
   (forall v, is_ref gen_cds (ser v) = false) ->
   forall ops1 ops2 v dis s2 d,
-  texts_in V ser T ops1 -> texts_in V ser T ops2 -> T (ser v) ->
+  texts_in V ser T ops1 -> texts_in V ser T ops2 -> no_purge V ops2 -> T (ser v) ->
   (ref_passthrough gen_cds = true -> disabled c || dis = false -> as_ref v = None) ->
   serialize V ser as_ref H gen_cds c (run V ser deser as_ref H gen_cds c (st0 V) ops1) v dis = (s2, d) ->
-  exists s4 a, resolve V deser gen_cds c (run V ser deser as_ref H gen_cds c s2 ops2) d = (s4, Some a)
-               /\ lookupA a (heap s4) = Some v.
+  (exists s4 a, resolve V deser gen_cds c (run V ser deser as_ref H gen_cds c s2 ops2) d = (s4, Some a)
+                /\ lookupA a (heap s4) = Some v) /\
+  (exists s4 a, resolve_cold V deser gen_cds (run V ser deser as_ref H gen_cds c s2 ops2) d = (s4, Some a)
+                /\ lookupA a (heap s4) = Some v).
+
+(* the structural fact the round trip rests on: _maybe_store writes the backend row on EVERY
+   externalisation (no process-local "already stored" shortcut, which a purge makes stale) *)
+Theorem cds_store_write_unconditional : store_skip_known gen_cds = false.
+Proof. exact eq_refl. Qed.
+Print Assumptions cds_store_write_unconditional.
 
 (* Proved part: the same, for every store state, threshold, disable flag, under the guards
    (i) no collision of H on the contents that occur, (ii) the serializer text layer round-trips and
@@ -107,13 +117,39 @@ Theorem cds_roundtrip_partial :
   (forall s1 s2, T s1 -> T s2 -> H s1 = H s2 -> s1 = s2) -> (forall v, deser (ser v) = v) ->
   (forall v, is_ref gen_cds (ser v) = false) ->
   forall ops1 ops2 v dis s2 d,
-  quiet V gen_cds ops1 -> texts_in V ser T ops1 -> quiet V gen_cds ops2 -> texts_in V ser T ops2 -> T (ser v) ->
+  quiet V gen_cds ops1 -> texts_in V ser T ops1 -> quiet V gen_cds ops2 -> texts_in V ser T ops2 ->
+  no_purge V ops2 -> T (ser v) ->
   (ref_passthrough gen_cds = true -> disabled c || dis = false -> as_ref v = None) ->
   serialize V ser as_ref H gen_cds c (run V ser deser as_ref H gen_cds c (st0 V) ops1) v dis = (s2, d) ->
-  exists s4 a, resolve V deser gen_cds c (run V ser deser as_ref H gen_cds c s2 ops2) d = (s4, Some a)
-               /\ lookupA a (heap s4) = Some v.
-Proof. exact (fun V ser deser as_ref H c T => resolve_serialize V ser deser as_ref H gen_cds c T). Qed.
+  (exists s4 a, resolve V deser gen_cds c (run V ser deser as_ref H gen_cds c s2 ops2) d = (s4, Some a)
+                /\ lookupA a (heap s4) = Some v) /\
+  (exists s4 a, resolve_cold V deser gen_cds (run V ser deser as_ref H gen_cds c s2 ops2) d = (s4, Some a)
+                /\ lookupA a (heap s4) = Some v).
+Proof. exact (fun V ser deser as_ref H c T Hc Hsd Hnr => resolve_serialize V ser deser as_ref H gen_cds c T Hc Hsd Hnr eq_refl). Qed.
 Print Assumptions cds_roundtrip_partial.
+
+(* the unconditional write is necessary: ANY facts record that skips the write for remembered keys is
+   refuted by a purge of the backend by another instance ... *)
+Theorem cds_skip_known_refuted : forall f, store_skip_known f = true -> stale_refuted f.
+Proof. exact skip_known_refuted. Qed.
+Print Assumptions cds_skip_known_refuted.
+
+(* ... and, when purge() forgets the LRU and the backend but not the remembered keys, by the instance's
+   own purge(): serialize v; purge(); serialize v again -> the reference does not resolve on a worker *)
+Theorem cds_skip_known_own_purge_refuted : forall f, store_skip_known f = true -> purge_clears_known f = false ->
+  exists v s2 d,
+    serialize str idS noref idS f alias_conf (run str idS idS noref idS f alias_conf (st0 str) [OSer v false; OPurge]) v false = (s2, d) /\
+    snd (resolve_cold str idS f s2 d) = None.
+Proof. exact skip_known_own_purge_refuted. Qed.
+Print Assumptions cds_skip_known_own_purge_refuted.
+
+(* the no-purge guard on ops2 is necessary: purge() drops every reference created before it *)
+Theorem cds_purge_drops_references : forall f,
+  exists v s2 d,
+    serialize str idS noref idS f alias_conf (st0 str) v false = (s2, d) /\
+    snd (resolve str idS f alias_conf (run str idS idS noref idS f alias_conf s2 [OPurge]) d) = None.
+Proof. exact purge_drops_references. Qed.
+Print Assumptions cds_purge_drops_references.
 
 (* What guard (iv) means on the CURRENT tree, decided by the generated fact: while the LRU keeps
    live Python objects the full statement is refuted by one in-place mutation; once it keeps the
